@@ -18,6 +18,10 @@ NA = {
 }
 
 CHECKS = {
+ "C07": dict(engine="netsim", technique="deterministic simulation: seeded order-preserving interleavings of 2..8 generated connections (TCP handshakes with timestamps, segmented TLS hellos, HTTP/1, HTTP/2 incl. hostile HPACK blocks, garbage) on one analyzer instance under a simulated clock; per-connection per-packet equivalence with the isolated replay at the same simulated times",
+   text="Exploration over merge orders (uniform, round-robin, bursts, hostile-first), endpoint sharing (same client other port, same server many clients, swapped roles), all four analyzers and both drive paths. A clean run shows that on everything explored no connection's results were suppressed, altered or leaked by other traffic.",
+   note="Fault-free configuration: capacity >= 2N+4 and timelines inside every TTL, as the statement conditions on the configured capacity; isolated and interleaved runs read the same simulated clock. Differential against the same code run alone.",
+   design="4/C07"),
  "C08": dict(engine="netsim", technique="deterministic simulation: seeded + enumerated in-order segmentations of TLS record streams, interleaved flows, simulated clock; oracle over the recorded history of return values",
    text="Exploration: every single cut position of fixed ClientHellos is enumerated, multi-way partitions, interleavings with other flows and the three delivery paths (reader API, per-packet path, real sequential packet loop) are sampled by seed. A clean run shows exactly-once/at-completion/equal-to-one-segment on everything explored; it is not a proof over all hellos.",
    note="Trusts the generator's knowledge of where the record ends (5 + declared length) and the one-segment delivery on a fresh instance as reference; deliveries are kept inside the 20 s flow TTL because the statement does not quantify over time.",
